@@ -487,6 +487,8 @@ func getAuthPeer(a *seg.ASEntry, i int) []byte {
 
 	auth := make([]byte, 16)
 	copy(auth[0:6], a.HopEntry.HopField.MAC[:])
+	// The authenticator of a peer entry starts with the MAC of that peer entry's hop field.
+	copy(auth[0:6], a.PeerEntries[i].HopField.MAC[:])
 	copy(auth[6:16], a.UnsignedExtensions.EpicDetached.AuthPeerEntries[i])
 	return auth
 }
